@@ -79,15 +79,71 @@ pub fn check_grid(v: usize, k: usize) -> Vec<(String, String)> {
     out
 }
 
+/// child process: the first symbol this process ever builds has version `first`; then S_grid for every (version, mask).
+/// Output: one line "FINDING <version> <mask> <key>\t<what>" per finding, "DONE <count>" at the end.
+pub fn child_main(args: &[String]) -> i32 {
+    let first: usize = match args.first().and_then(|a| a.parse().ok()) {
+        Some(f) if (1..=40).contains(&f) => f,
+        _ => return 2,
+    };
+    let only: Option<(usize, usize)> = match (args.get(1).and_then(|a| a.parse().ok()), args.get(2).and_then(|a| a.parse().ok())) {
+        (Some(v), Some(k)) => Some((v, k)),
+        _ => None,
+    };
+    let input = content(Family::Ctr, 2, r::cap(first, 1, 2));
+    let _ = subject::build(&input, &Opts { mode: Some(2), ecl: Some(1), version: Some(first as u8), mask: None, order: 0 });
+    let mut n = 0;
+    for v in 1..=40usize {
+        for k in 0..8usize {
+            if only.map_or(false, |o| o != (v, k)) {
+                continue;
+            }
+            n += 1;
+            for (key, w) in check_grid(v, k) {
+                println!("FINDING {} {} {}\t{}", v, k, key, w.replace('\n', " "));
+            }
+        }
+    }
+    println!("DONE {}", n);
+    0
+}
+
+fn run_first_child(first: usize, only: Option<(usize, usize)>) -> Result<Vec<(usize, usize, String, String)>, String> {
+    let exe = std::env::current_exe().map_err(|e| e.to_string())?;
+    let mut cmd = std::process::Command::new(exe);
+    cmd.arg("c08-child").arg(first.to_string());
+    if let Some((v, k)) = only {
+        cmd.arg(v.to_string()).arg(k.to_string());
+    }
+    let out = cmd.stderr(std::process::Stdio::null()).output().map_err(|e| e.to_string())?;
+    let txt = String::from_utf8_lossy(&out.stdout).to_string();
+    if !out.status.success() || !txt.lines().any(|l| l.starts_with("DONE ")) {
+        return Err(format!("child with first version {} did not finish: {:?}", first, out.status));
+    }
+    let mut f = vec![];
+    for l in txt.lines().filter(|l| l.starts_with("FINDING ")) {
+        let mut it = l[8..].splitn(3, ' ');
+        let v: usize = it.next().and_then(|x| x.parse().ok()).unwrap_or(0);
+        let k: usize = it.next().and_then(|x| x.parse().ok()).unwrap_or(0);
+        let rest = it.next().unwrap_or("");
+        let (key, what) = rest.split_once('\t').unwrap_or((rest, ""));
+        f.push((v, k, key.to_string(), what.to_string()));
+    }
+    Ok(f)
+}
+
 pub fn replay(case: &serde_json::Value) -> Result<Vec<(String, String)>, String> {
     let v = case.get("version").and_then(|x| x.as_u64()).ok_or("version")? as usize;
     let k = case.get("mask").and_then(|x| x.as_u64()).ok_or("mask")? as usize;
+    if let Some(first) = case.get("first_version").and_then(|x| x.as_u64()) {
+        return Ok(run_first_child(first as usize, Some((v, k)))?.into_iter().map(|(_, _, key, w)| (format!("C08/{}", key), w)).collect());
+    }
     Ok(check_grid(v, k).into_iter().map(|(k, w)| (format!("C08/{}", k), w)).collect())
 }
 
 pub fn run(ctx: &Ctx) -> Collector {
     let col = Collector::new("C08", "exploration");
-    col.set_rule("cases = for each of the 160 (version, level) pairs and payload families {ctr, all-zero} at byte capacity (thorough: 3 families x 3 modes x 3 lengths): the 8 forced-mask builds plus the automatic-mask build; oracle at EVERY coordinate of every size: builds a and 0 differ on data/EC/remainder modules exactly where Table 10 conditions a and 0 disagree (literal formulas), all function-pattern modules (incl. version information) are identical, only format modules may differ otherwise, and un-masking each symbol with the mask NAMED IN ITS OWN FORMAT INFORMATION gives one and the same matrix for all builds (this implies all 28 pairs); plus S_grid: the public masking entry point on an all-data grid of every side x 8 masks shows Table 10 pattern k at every coordinate and the build that follows on the same thread is the reference symbol; non-trivial = a symbol was returned; distinct = distinct symbol matrices");
+    col.set_rule("cases = for each of the 160 (version, level) pairs and payload families {ctr, all-zero} at byte capacity (thorough: 3 families x 3 modes x 3 lengths): the 8 forced-mask builds plus the automatic-mask build; oracle at EVERY coordinate of every size: builds a and 0 differ on data/EC/remainder modules exactly where Table 10 conditions a and 0 disagree (literal formulas), all function-pattern modules (incl. version information) are identical, only format modules may differ otherwise, and un-masking each symbol with the mask NAMED IN ITS OWN FORMAT INFORMATION gives one and the same matrix for all builds (this implies all 28 pairs); plus S_grid: the public masking entry point on an all-data grid of every side x 8 masks shows Table 10 pattern k at every coordinate and the build that follows on the same thread is the reference symbol, in this process and in 4 fresh processes whose first symbol is version 2, 3, 6 or 40; non-trivial = a symbol was returned; distinct = distinct symbol matrices");
     col.assume("encoding region = R's computed region map (data/EC/remainder modules)");
     let bs = bases(ctx.tier.thorough());
     pool::par_for(bs.len(), |bi| {
@@ -196,6 +252,21 @@ pub fn run(ctx: &Ctx) -> Collector {
             }
         }
     });
+    // the same in fresh processes whose first symbol is of another size (whatever the masking code builds once and keeps
+    // must not depend on what it was first used for)
+    let firsts = [2usize, 3, 6, 40];
+    for &first in &firsts {
+        match run_first_child(first, None) {
+            Ok(f) => {
+                col.eval(Some(crate::util::fnv(format!("first{}", first).as_bytes())));
+                for (v, k, key, w) in f {
+                    col.violation((3, (first * 1000 + v * 8 + k) as u64), format!("C08/{}-after-first-use", key), format!("in a process whose first symbol was version {}: {}", first, w), json!({"kind": "mask-grid", "first_version": first, "version": v, "mask": k}));
+                }
+            }
+            Err(e) => col.machinery_error(e),
+        }
+    }
+    col.space(json!({"name": "S_grid after another first use", "cases": firsts.len() * 320, "what": "S_grid in 4 fresh child processes whose first symbol built is version 2, 3, 6 and 40", "exhaustive": true}));
     col.space(json!({"name": "S_grid", "cases": 320, "what": "datamasking::mask (public entry point) on an all-data grid of each of the 40 sides x 8 masks: Table 10 pattern at every coordinate, nothing outside the square; then the forced-mask build of that version on the same thread equals the reference symbol", "exhaustive": true}));
     col.space(json!({"name": "S_mask", "cases": bs.len() * 9, "bases": bs.len(), "what": "160 (version, level) x payload bases x (8 forced masks + automatic); all coordinates of all 40 sizes compared under every mask", "exhaustive": true}));
     col.sample(json!({"space": "S_mask", "version": bs[0].v, "ecl": bs[0].e, "mode": bs[0].m, "payload": bs[0].what, "builds": "forced masks 0..7 + automatic"}));
